@@ -204,7 +204,8 @@ def main():
     # C10: the DialError variants and the arms of AddressStore::error_score -> coq/gen/DialErrors.v
     import gen_c10_errors
     counts, miss = gen_c10_errors.generate(REPO)
-    vals.update(counts)      # C10_DIAL_ERROR_LEAVES, C10_ERROR_SCORE_ARMS
+    vals.update(counts)      # C10_DIAL_ERROR_LEAVES, C10_ERROR_SCORE_ARMS, C10_STORE_SITES, C10_ENTRY_SITES
+    missing += list(miss)
     # C02: the io::ErrorKind table of the harness and the kinds the NoiseSocket produces itself
     # -> coq/gen/NoiseKinds.v (sibling script)
     import gen_c02_kinds
